@@ -1056,7 +1056,10 @@ func (ex *Exec) havoc(name string, t types.Type, hs havocSpec, field string) Val
 		for k := n; k >= 1; k-- {
 			lad = Ite(Eq(ln, BVC(int64(k), 64)), BVC(int64(k), 64), lad)
 		}
-		return MergeV(Eq(ln, BVC(0, 64)), NilRef(), Ref1(SliceT{Arr: arr, Off: 0, Len: lad, Cap: n}))
+		// an empty slice may be nil or non-nil (a JSON document can say "tasks": [] or omit the key)
+		isNil := ex.nondet(name+".nil", "bool").(BoolV).T
+		ex.assume(Implies(isNil, Eq(ln, BVC(0, 64))))
+		return MergeV(isNil, NilRef(), Ref1(SliceT{Arr: arr, Off: 0, Len: lad, Cap: n}))
 	case *types.Interface, *types.Signature:
 		return NilRef()
 	}
